@@ -150,7 +150,7 @@ def run(ctx):
     carve = sorted(ctx.known)
     conds = []
     tmo = 400 if tier == "quick" else 1500
-    allforms = list(range(7))
+    allforms = list(range(8))
     # one file, every way of use x every provision form of three identifiers (two identifier groups)
     groups = [["MIT", "GPL-3.0", "LicenseRef-x"], ["Foo", "GPL-2.0-or-later", "Classpath-exception-2.0"], ["LicenseRef-a_b", "LicenseRef-x", "MIT"]]
     for e in range(NEXPR):
@@ -190,7 +190,7 @@ def run(ctx):
     ctx.bounds = {
         "identifier classes": "current (MIT), deprecated (GPL-3.0), exception (Classpath-exception-2.0), LicenseRef-x, malformed LicenseRef-a_b, unknown (Foo), wrong case (mit), with real bundled SPDX records",
         "ways of use": "14 expressions (incl. two with a repeated identifier): alone, with '+', AND, OR in parentheses, WITH, LicenseRef with '+', none; one or two files",
-        "provision": "per identifier {absent, ID.txt, ID.md, ID (no extension), sub/ID.txt, ID+.txt, ID.txt with ID.txt.license}, three identifiers at a time",
+        "provision": "per identifier {absent, ID.txt, ID.md, ID (no extension), sub/ID.txt, ID+.txt, ID.txt with ID.txt.license, ID.txt with ID.txt.license.bak}, three identifiers at a time",
     }
     ctx.stubs = ["project.reuse_info_of returns the chosen expression (C02/C04 own reading and precedence)", "glob.iglob / Path.exists / is_dir / is_file replaced by the listing", "random pseudo-checksum made deterministic", "pathlib pure methods and licence parsing run natively on concrete values"]
     ctx.outside = ["identifiers other than the six representatives (one data pass checks that every bundled identifier resolves from ID.txt)", "two LICENSES files resolving to one identifier (the tool aborts with RuntimeError: C16's domain)", "LicenseRef-Unknown*"]
